@@ -502,8 +502,18 @@ def main():
                 impl_p = os.path.join(WORK, "%s-%s-%d.impl" % (g, d_tier, seed))
                 rc, out, err = sh([SFH, "gen", g, d_tier, str(seed), ops_p, impl_p], timeout=7000)
                 if rc != 0:
-                    rp = write_replay(prop, tier, seed, "harness-crash", {"stderr": err[-800:], "gen": g})
-                    violations.append(("the harness died while generating (%s)" % err.strip()[-200:], rp, True))
+                    # which operation took the process down? (lines are written before they run)
+                    tail_ops = []
+                    try:
+                        lines_ = open(ops_p, errors="replace").read().split("\n")
+                        lines_ = [l for l in lines_ if l]
+                        start = max((i for i, l in enumerate(lines_) if l.startswith("case ")), default=0)
+                        tail_ops = lines_[start:]
+                    except Exception:
+                        pass
+                    rp = write_replay(prop, tier, seed, "harness-crash", {"stderr": err[-800:], "gen": g, "ops": tail_ops[-400:],
+                        "note": "the process running the real crates died; the last operation of `ops` (written before it ran, flushed for the operations that copy) is where"})
+                    violations.append(("the real code took the harness process down (%s) at or after `%s`" % (err.strip()[-120:], (tail_ops[-1] if tail_ops else "?")[:80]), rp, True))
                     continue
                 runs.append(("gen:" + g, ops_p, impl_p))
             for label, ops_p, impl_p in runs:
